@@ -237,8 +237,29 @@ def _real_joblib_extract(plan, src, outdir, scratch):
     return {"err": res["err"]}
 
 
+def _count_io(plan):
+    """Sequential pre-pass in a forked process: number of file-touching lines each chunk task executes."""
+    from sim.proc import run_child
+
+    def child(report):
+        base = new_scratch("c13cnt")
+        try:
+            res = _run(dict(plan, count_only=True), base)
+            report({"io_counts": {} if "digest" in res else res})
+        finally:
+            rm_scratch(base)
+
+    msgs, _ = run_child(child, timeout=600)
+    for m in msgs:
+        if "io_counts" in m:
+            return {int(k): v for k, v in m["io_counts"].items()}
+    return {}
+
+
 def sweep_plans(tier, verif_seed):
-    """A few configurations are additionally executed under real joblib (fidelity of the stub)."""
+    """(i) A few configurations are additionally executed under real joblib (fidelity of the stub).
+    (ii) Hold-point sweeps: for seeded base configurations, EVERY file-touching line of EVERY non-empty chunk task is
+    used once as the point at which that task is parked until all other workers have finished."""
     from sim.common import run_seed
     n = {"quick": 2, "thorough": 10}[tier]
     for i in range(n):
@@ -246,6 +267,25 @@ def sweep_plans(tier, verif_seed):
         p["n_jobs"] = max(2, p["n_jobs"])
         p["real_joblib"] = True
         yield p
+    nbase = {"quick": 1, "thorough": int(os.environ.get("VERIF_C13_SWEEPS", "8"))}[tier]
+    for b in range(nbase):
+        s = run_seed(verif_seed, PROP + "-hold", b)
+        p = gen_plan(s, tier)
+        r = rng_of(s ^ 0xBEEF)
+        p.update({"n_jobs": r.choice([2, 2, 3, 4]), "prelude": None, "interrupted_first": None, "p_switch": 0.0, "victim": None,
+                  "order": None, "io_mode": False, "trace": None, "nap": min(p["nap"], 48)})
+        p["ns"] = min(p["ns"], 12000)
+        p["spikes"] = [sp for sp in p["spikes"] if sp[0] < p["ns"] and sp[2] < p["nap"]]
+        while p["ns"] / p["chunk"] > 8:
+            p["chunk"] *= 2
+        counts = _count_io(p)
+        cand = [(t, e) for t in sorted(counts) for e in range(counts[t])]
+        if tier == "quick":
+            cand = sorted(r.sample(cand, min(len(cand), 24)))
+        elif len(cand) > 400:
+            cand = sorted(r.sample(cand, 400))
+        for t, e in cand:
+            yield dict(p, delay={"where": "abs", "task": t, "at": e}, sweep_of=b)
 
 
 def _run(plan, base):
@@ -290,12 +330,21 @@ def _run(plan, base):
         if plan.get("prelude"):
             _prelude(plan, base, probe, stats, sigbase)
         pre = plan.get("preprocess") == "default"
+        if plan.get("count_only"):
+            od = base / "out_cnt"
+            od.mkdir()
+            rp = _extract(plan, src, od, plan["chunk"], plan["n_jobs"], {"count_io": True}, base / "scratch")
+            return {} if rp["err"] else {t: c for t, c in rp["io_counts"].items() if c > 0}
         for tag, chunk, n_jobs, schedule in (("ref", plan["chunk"] if pre else plan["chunk_ref"], 1, None),
                                              ("sim", plan["chunk"], plan["n_jobs"], {"seed": plan["sched_seed"], "p_switch": plan["p_switch"],
                                                                                    "victim": plan["victim"], "order": plan["order"], "trace": plan.get("trace"), "io_mode": plan.get("io_mode")})):
             od = base / f"out_{tag}"
             od.mkdir(exist_ok=True)
-            if tag == "sim" and plan.get("delay") and n_jobs > 1 and schedule.get("trace") is None:
+            if tag == "sim" and plan.get("delay") and plan["delay"].get("where") == "abs" and n_jobs > 1 and schedule.get("trace") is None:
+                schedule = dict(schedule, delay={"task": plan["delay"]["task"], "at": plan["delay"]["at"]})
+                probe("one_chunk_task_held_at_a_file_touching_line")
+                probe("hold_point_sweep_plans")
+            elif tag == "sim" and plan.get("delay") and n_jobs > 1 and schedule.get("trace") is None:
                 pre_od = base / "out_pre"
                 pre_od.mkdir()
                 rp = _extract(plan, src, pre_od, chunk, n_jobs, {"count_io": True}, base / "scratch")
